@@ -91,6 +91,9 @@ func main() {
 			fmt.Fprintln(os.Stderr, "write report:", err)
 			os.Exit(2)
 		}
+		if f := os.Getenv("VH_COMPLETE"); f != "" {
+			os.WriteFile(f, []byte("done"), 0o644)
+		}
 	} else {
 		c.R.Finish()
 		fmt.Printf("part=%s evaluations=%d distinct=%d violations=%d inconclusive=%d\n", name, c.R.Evaluations, c.R.Distinct, c.R.NViolations, len(c.R.Inconclusive))
